@@ -22,6 +22,25 @@ TARGETED = [
 ]
 
 
+def host_name_inputs():
+    """server_name extensions (alone and inside a client hello) over the host-name grammar: empty, 63- and 64-byte labels,
+    dots in every position, A-labels (well-formed, malformed, mixed case), non-ASCII and non-UTF-8 bytes, maximal lengths."""
+    from vmon.ref import tls as ref  # pylint: disable=import-outside-toplevel
+    names = [b'', b'.', b'..', b'a', b'a.', b'.a', b'a..b', b'www..example.com', b'www.example.com.', b'a' * 63 + b'.com',
+             b'a' * 64 + b'.com', b'a.' * 126 + b'a', b'a.' * 127 + b'a', b'xn--bcher-kva.example', b'XN--BCHER-KVA.example',
+             b'xn--a.example', b'xn--.example', b'xn--zz-.example', b'xn--' + b'a' * 59 + b'.example', b'xn--80ak6aa92e.com',
+             b'b\xc3\xbccher.example', b'\xff\xfe.example', b'exa mple.com', b'example.com\x00', b'-a.example', b'a-.example',
+             b'1.2.3.4', b'*.example.com', b'EXAMPLE.COM', b'a' * 255]
+    inputs = []
+    for name in names:
+        data = ref.u16(len(name) + 3) + ref.u8(0) + ref.u16(len(name)) + name
+        extension = ref.extension(0, data)
+        inputs.append(('cryptoparser.tls.extension:TlsExtensionServerNameClient', extension.hex()))
+        hello = ref.client_hello(0x0303, b'\x22' * 32, b'', [0xc02f, 0x009e], [0], [extension, ref.extension(23, b'')])
+        inputs.append(('cryptoparser.tls.subprotocol:TlsHandshakeClientHello', hello.hex()))
+    return inputs
+
+
 class Check(core.CheckBase):
     ID = 'C02'
     TECHNIQUE = 'runtime exception-type monitor on the parse entry points under mutation fuzzing of a seed corpus'
@@ -78,7 +97,7 @@ class Check(core.CheckBase):
                 index += 1
                 if self.mine(index):
                     yield {'kind': 'seed', 'cls': name, 'seed_index': seed_index, 'of': len(seeds)}
-        for cls_name, hex_input in TARGETED:
+        for cls_name, hex_input in TARGETED + host_name_inputs():
             index += 1
             if self.mine(index) and cls_name in self.targets:
                 yield {'kind': 'input', 'cls': cls_name, 'hex': hex_input, 'entry': 'parse_immutable'}
